@@ -113,3 +113,57 @@ class FlatStr:
     def model_str(self, model) -> str:
         n = model.eval(self.length, model_completion=True).as_long()
         return "".join(chr(model.eval(self.chars[i], model_completion=True).as_long()) for i in range(min(n, self.cap)))
+
+
+class FlatBytes(FlatStr):
+    """bytes of symbolic length <= capacity: one z3 Int in 0..255 per position"""
+
+    @staticmethod
+    def fresh(name: str, cap: int, path) -> "FlatBytes":
+        chars = [z3.Int(f"{name}_b{i}") for i in range(cap)]
+        n = z3.Int(f"{name}_len")
+        path.assume(z3.And(n >= 0, n <= cap))
+        for c in chars:
+            path.assume(z3.And(c >= 0, c <= 255))
+        f = FlatBytes(chars, n)
+        path.ghost.setdefault("inputs", {})[name] = f
+        return f
+
+    def eq(self, other):
+        if isinstance(other, (bytes, bytearray)):
+            if len(other) > self.cap:
+                return z3.BoolVal(False)
+            return z3.And(self.length == len(other), *[self.chars[i] == b for i, b in enumerate(other)])
+        if isinstance(other, FlatBytes):
+            return FlatStr.eq(self, other)
+        return z3.BoolVal(False)
+
+    def pysym_eq(self, I, other):
+        if isinstance(other, (bytes, bytearray, FlatBytes)):
+            return SBool(self.eq(other))
+        return False
+
+    def pysym_getslice(self, I, lo, hi):
+        lo = 0 if lo is None else lo
+        if not isinstance(lo, int) or not (hi is None or isinstance(hi, int)) or lo < 0 or (hi is not None and hi < lo):
+            raise Unsupported("slice bounds on symbolic bytes")
+        hi_c = self.cap if hi is None else min(hi, self.cap)
+        chars = self.chars[lo:hi_c]
+        avail = z3.If(self.length - lo < 0, 0, self.length - lo)
+        want = len(chars)
+        ln = z3.If(avail < want, avail, z3.IntVal(want))
+        return FlatBytes(chars, ln)
+
+    def pysym_getattr(self, I, name):
+        raise Unsupported(f"bytes.{name} on symbolic bytes")
+
+    def from_bytes_little(self):
+        """int.from_bytes(self, 'little') for the current (symbolic) length"""
+        total = z3.IntVal(0)
+        for i, c in enumerate(self.chars):
+            total = total + z3.If(i < self.length, c * (256 ** i), 0)
+        return total
+
+    def model_str(self, model):
+        n = model.eval(self.length, model_completion=True).as_long()
+        return repr(bytes(model.eval(self.chars[i], model_completion=True).as_long() for i in range(min(n, self.cap))))
